@@ -33,7 +33,7 @@ TSubmit(e) ==
   IF drifted \/ e.err # "" \/ ~SubmitOk(e.prompt, e.keep)
     THEN /\ UNCHANGED vars
          /\ Report(e, flags, IF ~drifted /\ ((e.err = "") # SubmitOk(e.prompt, e.keep)) /\ e.err # "busy" THEN {"submit-accepted-differently"} ELSE {})
-    ELSE /\ Submit(e.prompt, e.keep, e.predict)
+    ELSE /\ Submit(e.prompt, e.keep, e.predict, e.stop)
          /\ Report(e, flags, IF RecsOf(slot') # e.recs \/ InUseOf(slot') # e.inuseafter THEN {"slot-records-after-submit"} ELSE {})
 
 \* (a) every batch token is shown exactly the slot's record followed by the earlier tokens of
